@@ -4,6 +4,7 @@
 //! exit: 0 held (KNOWN-FINDING lines possible), 1 VIOLATION, 2 machinery failure.
 
 mod agent;
+mod ambient;
 mod common;
 mod engine_in;
 mod engine_sm;
@@ -26,6 +27,10 @@ fn selftests() {
     fails.extend(refimpl::wire::selftest());
     fails.extend(refimpl::attrs::selftest());
     fails.extend(agent::spec::selftest());
+    if let Err(e) = ambient::self_test() {
+        fails.push(e);
+    }
+    let _ = agent::base_instant();
     if !fails.is_empty() {
         for f in &fails {
             eprintln!("selftest: {f}");
